@@ -56,3 +56,7 @@ def run(ctx):
     hists, execs, traces = sm.run_property(ctx, "C18", ["gapfill_seq_is_next_send"], extras(ctx), limit_quick=1500)
     ctx.rule = ("transition cover of the session design (%d histories) + every stored/not-stored pattern of up to %d sends x request "
                 "ranges, replayed on the real session; distinct = distinct call sequences" % (len(hists), 4 if ctx.quick else 6))
+
+
+def replay(ctx, doc):
+    sc.replay_case(ctx, doc)
